@@ -41,7 +41,20 @@ def request_lambda(L, host, t):
     rec = inner[0]
     call = [c for c in rec['inner'] if c.get('kind') == 'CXXMethodDecl' and c.get('name') == 'operator()']
     if not call:
-        raise Unsupported('generic lambda at %s' % where(lam))
+        # generic lambda: operator() is a template; take its (single) instantiation
+        for c in rec['inner']:
+            if c.get('kind') == 'FunctionTemplateDecl' and c.get('name') == 'operator()':
+                inst = [x for x in c.get('inner', []) if x.get('kind') == 'CXXMethodDecl' and Index.has_body(x)
+                        and any(y.get('kind') == 'TemplateArgument' for y in x.get('inner', []))]
+                if t.get('lambda_type'):
+                    inst = [x for x in inst if x['type']['qualType'] == t['lambda_type']]
+                if len(inst) != 1:
+                    raise InfraError('contract no longer attached: generic lambda at %s has %d instantiations: %s' %
+                                     (where(lam), len(inst), [x['type']['qualType'] for x in inst]))
+                call = inst
+                L.idx.pattern.discard(inst[0]['id'])
+    if not call:
+        raise Unsupported('lambda without call operator at %s' % where(lam))
     call = call[0]
     fields = [c for c in rec['inner'] if c.get('kind') == 'FieldDecl']
     inits = [c for c in inner[1:] if c.get('kind') != 'CompoundStmt']
